@@ -28,8 +28,8 @@ def _model(job, half):
              visc=True, wave=job["wave"], fem=job["fem"], relief=job["relief"], fuel=job["fuel"], npm=job["npm"], wwr=1.5,
              thickness_cp=[0.03], spar_cp=[0.007], skin_cp=[0.012], toc=[0.11])
     mesh = B.surf_mesh(s, rng)
-    flow = dict(v=float(rng.uniform(180, 240)), alpha=float(rng.uniform(1, 4)), beta=0.0, rho=float(rng.uniform(0.4, 0.8)), Mach_number=0.84 if job["wave"] else 0.5, empty_cg=[0.3, 0.0, 0.05],
-                load_factor=float(rng.choice([1.0, 2.5])), W0=9000.0, fuel_mass=2600.0)
+    flow = dict(v=float(rng.uniform(180, 240)), alpha=float(rng.uniform(4, 8)), beta=0.0, rho=float(rng.uniform(0.4, 0.8)), Mach_number=0.84 if job["wave"] else 0.5, empty_cg=[0.3, 0.0, 0.05],
+                load_factor=float(rng.choice([1.0, 2.5])), W0=9000.0, fuel_mass=2600.0, R=2.0e6)
     y_pm = -0.3 * s["span"] if job["side"] == "L" else 0.3 * s["span"]
     if job["npm"]:
         flow["point_masses"] = [350.0]
@@ -100,6 +100,9 @@ def run_job(job):
     tol = 1e-8
     F = _obs(_model(job, False))
     H = _obs(_model(job, True))
+    # admissible cruise point (same rule as C01/C02/C07): positive lift, a finite positive Breguet fuel burn
+    if not (float(np.ravel(F["CL"])[0]) > 0.05 and 0.0 < float(np.ravel(F["fuelburn"])[0]) < 100.0 * 9000.0):
+        return {"k": job["k"], "job": job, "key": ["half_as_inadmissible", job["fem"], job["side"], job["k"]], "bad": [], "inadmissible": True}
     nyh = job["nyh"]
     side = job["side"]
     nod = slice(0, nyh) if side == "L" else slice(nyh - 1, None)
